@@ -575,6 +575,11 @@ where
     /// ```
     ///
     pub fn add_event(&mut self, event: impl Into<A::EventSet>, time: SimTime) {
+        assert!(
+            time >= self.sim_time(),
+            "cannot add an event at {time}, earlier than the current simulation time {}",
+            self.sim_time()
+        );
         self.future_event_set.add(time, event);
         self.event_id += 1;
     }
